@@ -393,6 +393,44 @@ def rule_common_node_order(ctx: Ctx, sites) -> None:
                      f"not LC-equivalent to itself)", func=q, construct=f"{q}: no common node order")
 
 
+# --------------------------------------------------------------------------- iso.input-first
+
+
+def rule_iso_input_first(ctx: Ctx) -> None:
+    """iso.input-first: automorph_check puts the input first (the first label sequence is the identity).  The array iso_finder returns stays
+    in that order: a slice keeps the first element, a re-ordering (emitter_sorted, sorted, a reversal, a shuffle) does not, unless the first
+    element is pinned (`[X[0]] + reorder(X[1:])`)."""
+    repo = ctx.repo
+    m = repo.module(RELABEL)
+    fn = repo.anchor(RELABEL, "iso_finder")
+    ctx.touch(m, fn)
+    returned = set()
+    for r in ast.walk(fn):
+        if isinstance(r, ast.Return) and r.value is not None:
+            v = r.value.elts[0] if isinstance(r.value, ast.Tuple) else r.value
+            while isinstance(v, ast.Subscript):
+                v = v.value
+            if isinstance(v, ast.Name):
+                returned.add(v.id)
+    n = 0
+    for a in ast.walk(fn):
+        if isinstance(a, ast.Assign) and len(a.targets) == 1 and isinstance(a.targets[0], ast.Name) and a.targets[0].id in returned:
+            n += 1
+            t = norm(a.value)
+            reorders = [w for w in ("emitter_sorted(", "sorted(", "np.sort(", "[::-1]", "shuffle(", "np.flip(", "reversed(") if w in t]
+            pinned = any(isinstance(x, ast.Subscript) and norm(x.slice) == "0" and isinstance(x.value, ast.Name) and x.value.id in returned for x in ast.walk(a.value)) \
+                and "[1:" in t
+            if reorders and not pinned:
+                ctx.fail("iso.input-first", m, a,
+                         f"iso_finder re-orders its result with `{short(a.value, 80)}`: the input graph, which automorph_check puts first, ends up wherever its own "
+                         f"labelling ranks (a path labelled 3-0-5-1-4-2, n_iso = 30, sort_emit=True: not first for 5 of 10 seeds)", func="iso_finder",
+                         construct="iso_finder: result re-ordered without pinning the input")
+            else:
+                ctx.ok("iso.input-first", m, a, what="order of the de-duplicated batch kept")
+    if n == 0:
+        raise AnalysisError("iso_finder: no assignment of the returned array")
+
+
 # --------------------------------------------------------------------------- iso.bounded
 
 
